@@ -42,12 +42,15 @@ def build_grad(d, system):
         g.first = 0
         g.last = 0
     elif k == 'ext':
-        g = pp.make_extended_trapezoid(d['ch'], amplitudes=np.array(d['amps'], dtype=float),
+        # 'dtype': 'int' -> the samples are handed over as an INTEGER NumPy array (the makers keep that dtype)
+        amps = np.array([int(a) for a in d['amps']]) if d.get('dtype') == 'int' else np.array(d['amps'], dtype=float)
+        g = pp.make_extended_trapezoid(d['ch'], amplitudes=amps,
                                        times=np.array(d['times'], dtype=float), system=system, skip_check=True,
                                        max_grad=1e30, max_slew=1e30)
         g.delay = d['delay']
     elif k == 'arb':
-        g = pp.make_arbitrary_grad(d['ch'], np.array(d['wf'], dtype=float), delay=d['delay'], system=system,
+        wf = np.array([int(a) for a in d['wf']]) if d.get('dtype') == 'int' else np.array(d['wf'], dtype=float)
+        g = pp.make_arbitrary_grad(d['ch'], wf, delay=d['delay'], system=system,
                                    max_grad=1e30, max_slew=1e30, first=d.get('first'), last=d.get('last'))
     else:
         raise ValueError(k)
